@@ -95,7 +95,14 @@ class Transformer(BaseEstimator, TransformerMixin, ABC):
             # Convert DataArray to Dataset
             coords = {}
             data_vars = {}
-            if data.name in data.coords:
+            is_coord_like = data.name in data.coords and data.coords[
+                data.name
+            ].variable.equals(data.variable)
+            if data.name in data.coords and not is_coord_like:
+                # Data that merely shares its name with one of its coordinates (e.g.
+                # weights computed as cos(lat) keep the name "lat") is no coordinate
+                data = data.rename(key)
+            if is_coord_like:
                 # Convert a coord-like DataArray to Dataset and note multiindexes
                 if isinstance(data.to_index(), pd.MultiIndex):
                     multiindexes[data.name] = [n for n in data.to_index().names]
